@@ -64,6 +64,8 @@ package rag
 //@   bind findSentenceEndNear.st = st
 //@   ensures range: (forall k int :: {boundaries[k]} 0 <= k && k < len(boundaries) ==> 0 <= boundaries[k].Position && boundaries[k].Position <= len(text)) ==> 0 <= r && r <= len(text)
 //@   ensures boundary: validUTF8(text, st) && (forall k int :: {boundaries[k]} 0 <= k && k < len(boundaries) ==> 0 <= boundaries[k].Position && boundaries[k].Position <= len(text) && st[boundaries[k].Position] == 0) ==> st[r] == 0
+//@   ensures size_chars: targetUnit == SizeUnitCharacters && len(boundaries) == 0 ==> r <= targetSize + 100
+//@   ensures size_tokens: targetUnit == SizeUnitTokens && len(boundaries) == 0 ==> real(r) <= real(targetSize) / sc.config.TokensPerChar + 100.0
 
 // Splitting: terminates; every piece is a non-empty substring of the input, pieces are in order and do not overlap.
 // (Stated without semantic boundaries: adjustBoundaryPositions ignores the white space trimmed from the remainder.)
@@ -110,8 +112,10 @@ package rag
 //@     invariant be.batchSize >= 1 && 0 <= i && (i <= len(chunks) || i - be.batchSize < len(chunks)) && mod(i, be.batchSize) == 0
 //@     decreases len(chunks) - i + be.batchSize
 
-// ---- C15: heading level = source level shifted by the offset, clamped to 1..min(max,6) ----
+// ---- C15: heading level = source level (default 2 when unset) shifted by the offset, clamped to 1..min(max,6) ----
+//@ spec func headingLevelSpec(level int, offset int, maxLevel int) int = let base = (level == 0 ? 2 : level) in let shifted = max(base + offset, 1) in let capped = (maxLevel > 0 ? min(shifted, maxLevel) : shifted) in min(capped, 6)
 //@ func (*Chunk) ToMarkdownWithOptions
 //@   property C15
 //@   flags callsites
 //@   callsite strings.Repeat(s, count) requires level_1_to_6: s == "#" ==> 1 <= count && count <= 6
+//@   callsite strings.Repeat(s, count) requires level_is_clamped_shift: s == "#" ==> count == headingLevelSpec(c.Metadata.HeadingLevel, opts.HeadingLevelOffset, opts.MaxHeadingLevel)
